@@ -98,16 +98,37 @@ Definition d_bin (x op : string) (y z : atom) (cs : list nat) (idx : nat) : dres
   | _, _ => (leaf_bin x op (atom_name y) (atom_name z) (nth idx cs 0), S idx)
   end.
 
+Fixpoint dlist (rec : stmt -> nat -> dres) (V : list string) (l : list stmt) (acc : option smat) (idx : nat) : dres :=
+  match l with
+  | [] => (acc, idx)
+  | s1 :: t => let '(m, idx') := rec s1 idx in dlist rec V t (dseq V acc m) idx'
+  end.
+
+Definition d_while (V : list string) (mb : option smat) : option smat :=
+  match mb with
+  | Some B => match sstar V B with
+              | Some St => if w_ok V St then Some St else None
+              | None => None
+              end
+  | None => None
+  end.
+
+Definition d_for (V : list string) (X : string) (mb : option smat) : option smat :=
+  match mb with
+  | Some B => match sstar V B with
+              | Some St => if l_ok V St then Some (memo V (l_extend V X St)) else None
+              | None => None
+              end
+  | None => None
+  end.
+
+Definition d_if (V : list string) (mt me : option smat) : option smat :=
+  match mt, me with Some A, Some B => Some (memo V (sadd B A)) | _, _ => None end.
+
 Fixpoint derive (fuel : nat) (V : list string) (s : stmt) (cs : list nat) (idx : nat) {struct fuel} : dres :=
   match fuel with
   | 0 => (None, idx)
   | S fuel' =>
-    let dlist :=
-      fix go (l : list stmt) (acc : option smat) (idx : nat) : dres :=
-        match l with
-        | [] => (acc, idx)
-        | s1 :: t => let '(m, idx') := derive fuel' V s1 cs idx in go t (dseq V acc m) idx'
-        end in
     match s with
     | SSkip _ => (Some sid, idx)
     | SBin x op y z => d_bin x op y z cs idx
@@ -129,40 +150,22 @@ Fixpoint derive (fuel : nat) (V : list string) (s : stmt) (cs : list nat) (idx :
         | _ => (Some sid, idx)
         end
     | SIf t e =>
-        let '(mt, i1) := dlist t (Some sid) idx in
-        let '(me, i2) := dlist e (Some sid) i1 in
-        (match mt, me with Some A, Some B => Some (memo V (sadd B A)) | _, _ => None end, i2)
+        let '(mt, i1) := dlist (fun s1 i => derive fuel' V s1 cs i) V t (Some sid) idx in
+        let '(me, i2) := dlist (fun s1 i => derive fuel' V s1 cs i) V e (Some sid) i1 in
+        (d_if V mt me, i2)
     | SWhile _ body =>
-        let '(mb, i1) := derive fuel' V body cs idx in
-        (match mb with
-         | Some B => match sstar V B with
-                     | Some St => if w_ok V St then Some St else None
-                     | None => None
-                     end
-         | None => None
-         end, i1)
+        let '(mb, i1) := derive fuel' V body cs idx in (d_while V mb, i1)
     | SFor iters srcs conds nxt body =>
         match loop_compat iters srcs conds nxt body with
         | None => (Some sid, idx)
-        | Some X =>
-            let '(mb, i1) := derive fuel' V body cs idx in
-            (match mb with
-             | Some B => match sstar V B with
-                         | Some St => if l_ok V St then Some (memo V (l_extend V X St)) else None
-                         | None => None
-                         end
-             | None => None
-             end, i1)
+        | Some X => let '(mb, i1) := derive fuel' V body cs idx in (d_for V X mb, i1)
         end
-    | SBlock l => dlist l (Some sid) idx
+    | SBlock l => dlist (fun s1 i => derive fuel' V s1 cs i) V l (Some sid) idx
     end
   end.
 
-Fixpoint derive_list (V : list string) (l : list stmt) (cs : list nat) (acc : option smat) (idx : nat) : dres :=
-  match l with
-  | [] => (acc, idx)
-  | s :: t => let '(m, idx') := derive depth_fuel V s cs idx in derive_list V t cs (dseq V acc m) idx'
-  end.
+Definition derive_list (V : list string) (l : list stmt) (cs : list nat) (acc : option smat) (idx : nat) : dres :=
+  dlist (fun s1 i => derive depth_fuel V s1 cs i) V l acc idx.
 
 (* the derivation of a whole function body for the choice vector cs *)
 Definition derive_func (f : func_src) (cs : list nat) : dres :=
